@@ -49,7 +49,7 @@ mutual
     | [] => false
     | .mk _ t k :: r =>
       (match k with
-       | .dyn _ => true
+       | .dyn _ _ => true
        | .greedy => true
        | .plain => dynTy t
        | _ => false) || dynMs r
@@ -86,7 +86,7 @@ end
 /-- a member after which a new block starts ("blocks which end with dynamic fields") -/
 def endsBlock (m : Member) : Bool :=
   match m.kind with
-  | .dyn _ => true
+  | .dyn _ _ => true
   | .greedy => true
   | .plain => dynTy m.ty
   | _ => false
@@ -120,7 +120,7 @@ mutual
         | .optional => max flagSize (alignTy t) + sizeTy t
         | .fixed c => c * sizeTy t
         | .limited _ c => c * sizeTy t
-        | .dyn _ => 0
+        | .dyn _ _ => 0
         | .greedy => 0
       endMs r (alignUp off a + slot) (endsBlock (.mk n t k))
   def maxArm : List Arm → Nat
@@ -187,15 +187,15 @@ mutual
         match k, v with
         | .plain, .sizer =>
           -- a counter: "array delimiter"; its width is the sizer field's type
-          [.scalar (sizeTy t) (counter n all allv)]
+          [.scalar (sizeTy t) (counter n all allv + sizerShift n all)]
         | .plain, v => chunksTy t v
         | .optional, .absent => [.pad (max flagSize (alignTy t) + sizeTy t)]
         | .optional, .present x =>
           [.scalar flagSize 1, .pad (max flagSize (alignTy t) - flagSize)] ++ chunksTy t x
         | .fixed _, .arr xs => chunksElems t xs
         | .fixed _, .bytes b => [.raw b]
-        | .dyn _, .arr xs => chunksElems t xs
-        | .dyn _, .bytes b => [.raw b]
+        | .dyn _ _, .arr xs => chunksElems t xs
+        | .dyn _ _, .bytes b => [.raw b]
         | .limited _ c, .arr xs =>
           let es := chunksElems t xs
           es ++ [.pad (c * sizeTy t - clen es)]
@@ -220,9 +220,9 @@ def memberLens (all : List Member) (allv : List Val) : List Member → List Val 
      | .optional, _ => max flagSize (alignTy t) + sizeTy t
      | .fixed c, _ => c * sizeTy t
      | .limited _ c, _ => c * sizeTy t
-     | .dyn _, .arr xs => clen (chunksElems t xs)
+     | .dyn _ _, .arr xs => clen (chunksElems t xs)
      | .greedy, .arr xs => clen (chunksElems t xs)
-     | .dyn _, .bytes b => b.length
+     | .dyn _ _, .bytes b => b.length
      | .greedy, .bytes b => b.length
      | _, _ => 0) :: memberLens all allv r vs
   | _, _ => []
